@@ -426,15 +426,24 @@ func genPath(r *common.Rng) string {
 	return sb.String()
 }
 
+// phantomUsers: credentials that look valid; they are valid only if the case configures them.
+var phantomUsers = []User{{"hello", "world"}, {"u2", "p:w"}}
+
+// authField: a Proxy-Authorization field. valid: a configured user's token (with no users configured: a
+// well-formed token of a user that does not exist).
 func authField(r *common.Rng, c *Case, valid bool) HF {
+	users := c.Users
+	if len(users) == 0 {
+		users = phantomUsers
+	}
 	v := ""
 	if valid {
-		v = common.Pick(r, []string{"Basic", "basic", "BASIC", "bAsIc"}) + " " + token(common.Pick(r, c.Users))
+		v = common.Pick(r, []string{"Basic", "basic", "BASIC", "bAsIc"}) + " " + token(common.Pick(r, users))
 	} else {
 		v = common.Pick(r, []string{
-			"Basic " + base64.StdEncoding.EncodeToString([]byte("hello:wrong")),
-			"Basic", "Basic ", "Basic  " + token(c.Users[0]), "Bas1c " + token(c.Users[0]), "Digest username=\"x\"", "Bearer " + token(c.Users[0]), "",
-			"Basic " + token(c.Users[0]) + "x", "Basic " + strings.ToLower(token(c.Users[0])),
+			"Basic " + base64.StdEncoding.EncodeToString([]byte("hello:wrong!")),
+			"Basic", "Basic ", "Basic  " + token(users[0]), "Bas1c " + token(users[0]), "Digest username=\"x\"", "Bearer " + token(users[0]), "",
+			"Basic " + token(users[0]) + "x", "Basic " + strings.ToLower(token(users[0])) + "=",
 		})
 	}
 	return HF{K: recase(r, "Proxy-Authorization"), V: v, Pad: common.Pick(r, []string{" ", "", "  "})}
@@ -576,8 +585,21 @@ func genScript(r *common.Rng, i int, q Req, search bool) Script {
 
 func genCase(r *common.Rng, search bool) Case {
 	c := Case{ClientCutReq: -1, ClientCut: -1, OriginCloseAfter: -1, OriginCut: -1}
-	c.Users = []User{{"hello", "world"}, {"u2", "p:w"}}
 	c.Auth = r.Chance(2, 5)
+	// the configuration dimension of the authentication gate: 0, 1, many users, duplicates, empty name / password
+	switch r.Intn(10) {
+	case 0: // authentication enabled and NO user: nothing may ever be forwarded
+		c.Users, c.Auth = nil, true
+	case 1:
+		c.Users = []User{common.Pick(r, []User{{"hello", "world"}, {"", "pw"}, {"name", ""}, {"", ""}, {"u", "p:w:x"}})}
+	case 2:
+		c.Users = []User{{"a", "1"}, {"b", "2"}, {"a", "1"}, {"c", "3"}, {"a", "other"}, {"", ""}, {"hello", "world"}}
+	case 3:
+		c.Users = []User{{"", "pw"}, {"name", ""}}
+	default:
+		c.Users = []User{{"hello", "world"}, {"u2", "p:w"}}
+	}
+	noUsers := c.Auth && len(c.Users) == 0
 	n := r.Range(1, 6)
 	switch r.Intn(10) {
 	case 0, 1:
@@ -595,13 +617,23 @@ func genCase(r *common.Rng, search bool) Case {
 			nfail = r.Range(1, 3)
 		}
 	}
+	if noUsers { // every request fails the check: none / malformed / well-formed credentials of users that do not exist
+		nfail, n = r.Range(1, 5), 0
+		c.Kind = "auth-no-users"
+	}
 	for i := 0; i < nfail; i++ {
 		q := genReq(r, &c, i, host)
 		q.WaitContinue = false
 		// ServerHandle does not drain the body of a request it answers with 407, so a retry on the same
 		// connection only works for requests without a body (noted in the report; outside C16's statement)
 		q.Body = Body{Kind: "none"}
-		switch r.Intn(4) {
+		cred := r.Intn(4)
+		if noUsers && r.Bool() {
+			cred = 4
+		}
+		switch cred {
+		case 4: // well-formed Basic credentials (of a user that is not configured)
+			q.Headers = append(q.Headers, authField(r, &c, true))
 		case 0: // no credentials at all
 		case 1: // a wrong one first, a valid one second: the first Basic value decides
 			q.Headers = append([]HF{authField(r, &c, false)}, q.Headers...)
@@ -618,7 +650,10 @@ func genCase(r *common.Rng, search bool) Case {
 	}
 	c.FirstFwd = nfail
 	special := r.Intn(12)
-	if search && r.Chance(2, 3) { // violation search: early closes and arrival patterns at the origin side
+	if noUsers && special != 2 && special != 4 {
+		special = 11
+	}
+	if search && !noUsers && r.Chance(2, 3) { // violation search: early closes and arrival patterns at the origin side
 		special = common.Pick(r, []int{4, 5, 6, 7, 8, 7, 8, 2})
 	}
 	if (special == 7 || special == 8) && n < 2 {
